@@ -72,21 +72,17 @@ def h_friendly_number(value: int):
     # groups only, the sign directly in front of the first digit.  Equality with it implies: removing the
     # commas reads back as `value`, every later group has exactly three digits, the sign touches a digit.
     a = -value if value < 0 else value
-    ref = []
-    ngroups = 1
-    while a >= 1000:
-        g = a % 1000
-        ref = [44, 48 + g // 100, 48 + (g // 10) % 10, 48 + g % 10] + ref
-        a = a // 1000
-        ngroups += 1
-    if a >= 100:
-        ref = [48 + a // 100, 48 + (a // 10) % 10, 48 + a % 10] + ref
-    elif a >= 10:
-        ref = [48 + a // 10, 48 + a % 10] + ref
-    else:
-        ref = [48 + a] + ref
-    if value < 0:
-        ref = [45] + ref
+    n = 1                              # number of decimal digits of |value| (concrete per path)
+    p10 = 10
+    while a >= p10:
+        p10 = p10 * 10
+        n += 1
+    ref = [45] if value < 0 else []
+    for i in range(n - 1, -1, -1):     # digit of weight 10**i; a comma in front of every weight 10**(3k+2)
+        ref.append(48 + (a // 10 ** i) % 10)
+        if i % 3 == 0 and i > 0:
+            ref.append(44)
+    ngroups = (n + 2) // 3
     if ngroups > 1:
         if value < 0:
             reached("negative_multi_group")
